@@ -86,11 +86,11 @@ class World:
                 u = cls.new_unit(sym)
             elif kind == 'scaled':
                 f = mk_amount(d['f'], d['frep'])
-                u = cls.new_unit(sym, None, f * self.units[d['of']])
+                u = cls.new_unit(sym, 'a unit of ' + cls.__name__, f * self.units[d['of']])
             elif kind == 'derive':
-                u = cls.derive_unit_from(*[self.units[a] for a in d['args']], symbol=sym)
+                u = cls.derive_unit_from(*[self.units[a] for a in d['args']], symbol=sym, name='a unit of ' + cls.__name__)
             elif kind == 'term':
-                u = cls.new_unit(sym, None, Term([(self.units[s], e) for s, e in d['items']]))
+                u = cls.new_unit(sym, 'a unit of ' + cls.__name__, Term([(self.units[s], e) for s, e in d['items']]))
             elif kind == 'cur':
                 u = cls.new_unit(sym, sym, d['md'])
             else:
